@@ -5,6 +5,7 @@
     validity of the representation and the absence of panics.
     The theorems hold for every word size and, for the sliding window, for every window length. *)
 From Dashu Require Import Base.Prelude Base.Words Int.BitsSpec Int.ModRingPowModel.
+From DashuGen Require Import ModRingGen.
 Open Scope Z_scope.
 
 (** ---------------- small facts on binary digits ---------------- *)
@@ -339,6 +340,28 @@ Proof.
   intros Hw. unfold choose_window_len. split; [apply choose_loop_lb; lia | apply choose_loop_ub; lia].
 Qed.
 
+(** the regenerated window-length function stays in [1, w): proved over the GENERATED definition, for whatever cost
+    function and break test the source has (only the loop guard `window_size + 1 < WORD_BITS` and the first size matter) *)
+Lemma gen_choose_loop_lb fuel : forall n ws c, 1 <= ws -> 1 <= gen_choose_loop fuel w n ws c.
+Proof.
+  induction fuel as [|f IH]; intros n ws c Hws; cbn [gen_choose_loop]; [exact Hws|].
+  destruct (gen_window_guard w ws); [|exact Hws]. destruct (gen_window_break c (gen_wcost n (ws + 1))); [exact Hws | apply IH; lia].
+Qed.
+
+Lemma gen_choose_loop_ub fuel : forall n ws c, ws < w -> gen_choose_loop fuel w n ws c < w.
+Proof.
+  induction fuel as [|f IH]; intros n ws c Hws; cbn [gen_choose_loop]; [exact Hws|].
+  unfold gen_window_guard. destruct (Z.ltb_spec (ws + 1) w); [|exact Hws].
+  destruct (gen_window_break c (gen_wcost n (ws + 1))); [exact Hws | apply IH; lia].
+Qed.
+
+Lemma gen_choose_window_len_range n : 2 <= w -> 1 <= gen_choose_window_len w n < w.
+Proof.
+  intros Hw. unfold gen_choose_window_len.
+  assert (1 <= gen_window_start < w) as Hs by (unfold gen_window_start; lia).
+  split; [apply gen_choose_loop_lb; lia | apply gen_choose_loop_ub; lia].
+Qed.
+
 (** large::pow with the window function [winf], for every exponent *)
 Theorem pow_large_ok raw exp : R raw 1 -> 0 <= exp ->
   (forall wl bit, 1 <= wl < w -> 0 <= bit -> winf exp bit wl = window_val exp bit wl) -> 2 <= w ->
@@ -347,7 +370,9 @@ Proof.
   intros Hr He Hwin Hw. unfold pow_large.
   destruct (Z.eqb_spec exp 0) as [->|N0]; [exists one; split; [reflexivity | exact R_one]|].
   destruct (Z.eqb_spec exp 1) as [->|N1]; [exists raw; split; [reflexivity | exact Hr]|].
-  unfold pow_nontrivial_large. pose proof (choose_window_len_range (Z.log2 exp + 1) Hw) as Hc.
+  unfold pow_nontrivial_large. pose proof (gen_choose_window_len_range (Z.log2 exp + 1) Hw) as Hc. cbv zeta.
+  replace ((1 <=? gen_choose_window_len w (Z.log2 exp + 1)) && (gen_choose_window_len w (Z.log2 exp + 1) <? w)) with true
+    by (symmetry; apply andb_true_intro; split; [apply Z.leb_le | apply Z.ltb_lt]; lia).
   apply pow_window_with_ok; [exact Hr | lia | lia |]. intros bit Hb. apply Hwin; [exact Hc | exact Hb].
 Qed.
 
